@@ -270,6 +270,24 @@ def Tracer.ensure_map (t : Tracer) : R Tracer := do
 
 /-! ### `coerce_primitive_type` -/
 
+/-! `deriving BEq` on the mutual `DataType` does not reduce in the kernel: the model compares data types with
+these pattern-matching predicates (or `DecidableEq`) so that the finite tables are `decide`-able. -/
+def isNull : DataType → Bool
+  | .null => true
+  | _ => false
+
+def isBoolean : DataType → Bool
+  | .boolean => true
+  | _ => false
+
+def isLargeUtf8 : DataType → Bool
+  | .largeUtf8 => true
+  | _ => false
+
+def isUtf8 : DataType → Bool
+  | .utf8 => true
+  | _ => false
+
 def isUnsigned : DataType → Bool
   | .uint8 | .uint16 | .uint32 | .uint64 => true
   | _ => false
@@ -285,7 +303,7 @@ def isFloat3264 : DataType → Bool
 def isInt (d : DataType) : Bool := isSigned d || isUnsigned d
 
 /-- the pattern `Boolean | Int8 … UInt64 | Float32 | Float64` of the `allow_to_string` arms -/
-def isToStringSource (d : DataType) : Bool := d == .boolean || isInt d || isFloat3264 d
+def isToStringSource (d : DataType) : Bool := isBoolean d || isInt d || isFloat3264 d
 
 def isTimestamp : DataType → Bool
   | .timestamp _ _ => true
@@ -315,15 +333,15 @@ def coerce_primitive_type (o : Options) (prev_ty : DataType) (nullable : Bool) (
   else if isInt prev_ty && isFloat3264 curr_ty && o.coerce_numbers then .ok (.float64, nullable, none)
   -- float x int -> f64
   else if isFloat3264 prev_ty && isInt curr_ty && o.coerce_numbers then .ok (.float64, nullable, none)
-  else if prev_ty == .largeUtf8 && isToStringSource curr_ty && o.allow_to_string then .ok (.largeUtf8, nullable, none)
-  else if isToStringSource prev_ty && curr_ty == .largeUtf8 && o.allow_to_string then .ok (.largeUtf8, nullable, none)
-  else if prev_ty == .utf8 && isToStringSource curr_ty && o.allow_to_string then .ok (.utf8, nullable, none)
-  else if isToStringSource prev_ty && curr_ty == .utf8 && o.allow_to_string then .ok (.utf8, nullable, none)
+  else if isLargeUtf8 prev_ty && isToStringSource curr_ty && o.allow_to_string then .ok (.largeUtf8, nullable, none)
+  else if isToStringSource prev_ty && isLargeUtf8 curr_ty && o.allow_to_string then .ok (.largeUtf8, nullable, none)
+  else if isUtf8 prev_ty && isToStringSource curr_ty && o.allow_to_string then .ok (.utf8, nullable, none)
+  else if isToStringSource prev_ty && isUtf8 curr_ty && o.allow_to_string then .ok (.utf8, nullable, none)
   -- incompatible formats, coerce to string
-  else if isTimestamp prev_ty && curr_ty == .largeUtf8 then .ok (.largeUtf8, nullable, none)
-  else if prev_ty == .largeUtf8 && isTimestamp curr_ty then .ok (.largeUtf8, nullable, none)
-  else if isTimestamp prev_ty && curr_ty == .utf8 then .ok (.utf8, nullable, none)
-  else if prev_ty == .utf8 && isTimestamp curr_ty then .ok (.utf8, nullable, none)
+  else if isTimestamp prev_ty && isLargeUtf8 curr_ty then .ok (.largeUtf8, nullable, none)
+  else if isLargeUtf8 prev_ty && isTimestamp curr_ty then .ok (.largeUtf8, nullable, none)
+  else if isTimestamp prev_ty && isUtf8 curr_ty then .ok (.utf8, nullable, none)
+  else if isUtf8 prev_ty && isTimestamp curr_ty then .ok (.utf8, nullable, none)
   else if isTimestamp prev_ty && isTimestamp curr_ty && tzOf prev_ty != tzOf curr_ty then
     .ok (o.string_type, nullable, none)
   else fail "Cannot accept type for tracer of primitive type"
@@ -332,11 +350,11 @@ def coerce_primitive_type (o : Options) (prev_ty : DataType) (nullable : Bool) (
 def Tracer.ensure_primitive_with_strategy (o : Options) (t : Tracer) (item_type : DataType)
     (strategy : Option Strategy) : R Tracer :=
   match t with
-  | .unknown n p nl => .ok (.primitive n p (nl || item_type == .null) item_type strategy)
+  | .unknown n p nl => .ok (.primitive n p (nl || isNull item_type) item_type strategy)
   | .primitive n p nl ty st => do
     let (ty', nl', st') ← coerce_primitive_type o ty nl st item_type strategy
     .ok (.primitive n p nl' ty' st')
-  | t => if item_type == .null then .ok (t.set_nullable true) else fail "Cannot merge container with primitive"
+  | t => if isNull item_type then .ok (t.set_nullable true) else fail "Cannot merge container with primitive"
 
 /-- `Tracer::ensure_primitive` / `ensure_number` -/
 def Tracer.ensure_primitive (o : Options) (t : Tracer) (item_type : DataType) : R Tracer :=
@@ -480,9 +498,9 @@ def Tracer.to_field (o : Options) : Tracer → R Field
   | .unknown n p nl => withOverwrite o n p fun _ =>
     if !o.allow_null_fields then fail "Encountered null only field" else .ok (.mk n .null nl [])
   | .primitive n p nl ty st => withOverwrite o n p fun _ =>
-    if !o.allow_null_fields && ty == .null then fail "Encountered null only field"
-    else if ty == .null then .ok (.mk n .null true [])
-    else if ty == .largeUtf8 || ty == .utf8 then
+    if !o.allow_null_fields && isNull ty then fail "Encountered null only field"
+    else if isNull ty then .ok (.mk n .null true [])
+    else if isLargeUtf8 ty || isUtf8 ty then
       if !o.string_dictionary_encoding then .ok (.mk n ty nl [])
       else .ok (default_dictionary_field n nl o.string_type)
     else .ok (.mk n ty nl (match st with | some s => strategyMeta s | none => []))
